@@ -18,13 +18,15 @@ from . import C09
 TECHNIQUE = ("expression-shape agreement between the writer and the reader of sub-block names; induction-variable check of "
              "the sub-block counters; table/handler coverage of the split vocabulary by abstract evaluation")
 LEVEL_TEXT = ("Decides the sentence 'every specification key corresponds to one reported sub-block' as far as naming goes: "
-              "keys are written and looked up with the same expression over indices that both enumerate sub-blocks from 0; "
-              "and that every instruction the splitter can cut at has the arity and translation it reads. The partition "
-              "and identity statements themselves (index arithmetic and substring matching over run-time lists) are not decided.")
+              'keys are written and looked up with the same expression over indices that both enumerate sub-blocks from 0; '
+              'and that every instruction the splitter can cut at has the arity and translation it reads. The partition and '
+              'identity statements are decided on bounded families by abstract evaluation: split_blocks on every opcode '
+              'sequence of length <= 4 over {ordinary, split, store, terminating} (C14.g), the numeric partition on every '
+              'cut set of small lists (C14.f), rebuild(B, nothing replaced) = B on the block family of C09.f (C14.h), and '
+              'the helpers that receive the sub-block list leave it intact (C14.i).')
 EXPLANATION = ("Writer: generate_json stores blocks_json_dict[block_name + '_' + str(subblock)] (or + '_0' when unsplit); reader: "
                "rebuild_optimized_asm_block looks up previous_block.block_name + '_' + str(enumerate index).")
-NOT_DECIDED = ("join(subblocks(B)) = optimizable(B); rebuild(B, all None) = B; the numeric partition heuristic — all depend on "
-               "run-time list contents")
+NOT_DECIDED = ('the same statements for blocks outside the evaluated families; where the numeric heuristic chooses to cut')
 ASSUMPTIONS = ["the block name handed to the front-end is AsmBlock.block_name (checked in compute_original_sfs_with_simplifications)"]
 
 GO = "sfs_generator.gasol_optimization"
@@ -91,6 +93,8 @@ def rule_a(ctx, out):
             out.bad("rebuild:index-not-enumeration-from-0", f"reader index {idx} is not the position in {rb.params[1]} counted from 0", where(rb, d))
         # looked up in the replacement map with that very name
         uses = [s for s in own_nodes(rb.node) if isinstance(s, ast.Subscript) and is_name(s.value, rb.params[2]) and is_name(s.slice, d.targets[0].id)]
+        uses += [s for s in own_nodes(rb.node) if isinstance(s, ast.Call) and isinstance(s.func, ast.Attribute) and s.func.attr == "get" and is_name(s.func.value, rb.params[2])
+                 and s.args and is_name(s.args[0], d.targets[0].id)]
         if uses:
             out.ok({"reader_lookup": f"{rb.params[2]}[{d.targets[0].id}]"})
         else:
@@ -495,10 +499,49 @@ def rule_i(ctx, out):
         raise AnalysisError(f"only {n} calls evaluated: no function receiving the sub-block list was found")
 
 
+# call sites where a caller's local happens to carry the name of another parameter of the callee; read one by one
+ARG_ORDER_TRIAGED = {
+    "needed_nostores->computed:v->od": "computed(v, od) asks whether `od` needs `v`; the caller asks whether the final-stack element (its local `v`) needs the load's "
+                                       "result `op`: roles match, only the local's name coincides with the callee's first parameter",
+    "compute_binary->check_size:expression->exp_without": "the caller's `expression` is the unfolded pair, i.e. the callee's exp_without; the folded value goes to the "
+                                                          "callee's `expression`: roles match (decided behaviourally by C03.d)",
+    "build_userdef_instructions->modified_svariable:new_uvar->old_uvar": "the caller's freshly created variable is the one being replaced by the existing "
+                                                                         "instruction's output: it is the callee's old_uvar",
+}
+
+
+def rule_j(ctx, out):
+    """Call sites and signatures agree on the order of arguments.  The splitting policies are passed as adjacent boolean flags
+    (storage / partition); a signature whose parameters are re-ordered while a caller still passes them positionally exchanges the two
+    policies without any error.  Project-wide: a positional argument that is a plain name equal to the name of *another* parameter of
+    the (precisely resolved) callee is reported unless the site was read and recorded."""
+    from ..core.idioms import misplaced_named_arguments
+    n_calls = 0
+    for f in ctx.p.functions.values():
+        n_calls += sum(1 for c in calls_in(f.node) if len(ctx.r.resolve_call(f, c)) == 1)
+    seen = set()
+    for f, c, i, a, p_, j in misplaced_named_arguments(ctx):
+        callee = ctx.r.resolve_call(f, c)[0]
+        key = f"{f.name}->{callee.name}:{a}->{p_}"
+        if key in seen:
+            continue
+        seen.add(key)
+        if key in ARG_ORDER_TRIAGED:
+            out.unproven.append({"site": key, "reason": ARG_ORDER_TRIAGED[key]})
+            out.ok()
+        else:
+            out.bad(f"argument-order:{key}", f"{f.name} passes `{a}` as argument {i + 1} of {callee.name}{tuple(callee.params)}, where the callee has `{p_}`; the "
+                    f"callee's own `{a}` is parameter {j + 1}: the call site and the signature disagree about the order", where(f, c))
+    out.ok({"precisely_resolved_calls_examined": n_calls})
+    if n_calls < 500:
+        raise AnalysisError(f"only {n_calls} precisely resolved calls")
+
+
 RULES = [
+    ("C14.j", "call sites and signatures agree on the order of arguments", 1, rule_j),
     ("C14.i", "functions handed the sub-block list leave it intact (by evaluation)", 5, rule_i),
     ("C14.g", "splitting at split instructions: pieces, shared lines and re-assembly (by evaluation)", 600, rule_g),
-    ("C14.h", "rebuild on a bounded block family: identity when nothing is replaced, own segment otherwise (by evaluation)", 50, rule_h),
+    ("C14.h", "rebuild on a bounded block family: identity when nothing is replaced, own segment otherwise (by evaluation)", 90, rule_h),
     ("C14.f", "numeric partition: pieces, overlaps and re-assembly", 25, rule_f),
     ("C14.e", "partition cuts: relative positions are re-based by the offset of the cut", 1, rule_e),
     ("C14.d", "variable numbers are compared as numbers", 6, rule_d),
